@@ -207,6 +207,40 @@ func runFlushDrain(c *Ctx, r *RuleRun) {
 				if !ok && hasFact(last, emptyQueue) {
 					ok = true
 				}
+				// the way out is taken on a flag (`for !done`) that becomes true only as the value of len(flushC) == 0,
+				// computed in the iteration that ends here (nothing is received between the test and the exit)
+				if iff, isIf := last.(*ssa.If); isIf && !ok {
+					cm := canonCond(iff.Cond, si == 0)
+					if cm.Y == nil && cm.Op == "true" {
+						var onlyEmpty func(v ssa.Value, d int) bool
+						seenPhi := map[*ssa.Phi]bool{}
+						onlyEmpty = func(v ssa.Value, d int) bool {
+							if d > 6 {
+								return false
+							}
+							switch x := v.(type) {
+							case *ssa.Const:
+								return isConstBool(x, false)
+							case *ssa.BinOp:
+								c2 := canonCond(x, true)
+								return emptyQueue(c2) || emptyQueue(c2.Flip())
+							case *ssa.Phi:
+								if seenPhi[x] {
+									return true
+								}
+								seenPhi[x] = true
+								for _, e := range x.Edges {
+									if !onlyEmpty(e, d+1) {
+										return false
+									}
+								}
+								return true
+							}
+							return false
+						}
+						ok = onlyEmpty(cm.X, 0)
+					}
+				}
 				r.Check(ok, fn, "exit only with an empty queue", p.Pos(instrPos(last)), "this way out of the loop is taken only when len(flushC) == 0",
 					"the flusher can stop while rotated memtables are still queued: Close returns with their wal files left behind, and the next Open replays them over newer data")
 			}
@@ -294,6 +328,11 @@ func runOracleAccum(c *Ctx, r *RuleRun) {
 			for _, inner := range phis {
 				ho, hi := outer.Block(), inner.Block()
 				if outer == inner || ho == hi || !inLoop(ho) || !inLoop(hi) || !ho.Dominates(hi) || !reaches(hi, ho) || !dependsOnVersion(inner) {
+					continue
+				}
+				// loop headers only: the merge point of an open-coded maximum (`if v > m { m = v }`) lies inside the inner
+				// loop and is rightly skipped by a file without entries
+				if !isLoopHeader(ho) || !isLoopHeader(hi) {
 					continue
 				}
 				last := ho.Instrs[len(ho.Instrs)-1]
@@ -684,6 +723,8 @@ func runSkipLevel(c *Ctx, r *RuleRun) {
 		ok := hasFact(st, func(cm Cmp) bool {
 			return cm.Op == ">" && cm.X == st.Val && cm.Y != nil && isLoadOfField(cm.Y, lvl)
 		})
+		// or written as s.level = max(s.level, level): the stored value is at least the current height
+		ok = ok || p.geq(st.Val, factsAt(st), func(v ssa.Value) bool { return isLoadOfField(v, lvl) }, 0)
 		r.Check(ok, p.FnName(set), "height only grows", p.Pos(instrPos(st)), "stored only when the new tower is taller than the current height",
 			"the list height follows the last inserted tower and can shrink below existing towers: Delete then unlinks a tall node only on the lower levels, the node stays linked above and later insertions behind it are unreachable on level 0")
 	}
@@ -1406,7 +1447,18 @@ func runWmCount(c *Ctx, r *RuleRun) {
 			continue
 		}
 		n++
-		q := PathQuery{P: p, Fn: f, Starts: []ssa.Instruction{iff}, EdgeOK: func(bb *ssa.BasicBlock, i int) bool { return bb != b || i == nilSucc },
+		// (a later test of the same mark's waiter - a flat switch repeats it - can only go the nil way again)
+		q := PathQuery{P: p, Fn: f, Starts: []ssa.Instruction{iff}, EdgeOK: func(bb *ssa.BasicBlock, i int) bool {
+			if bb == b {
+				return i == nilSucc
+			}
+			if i2, ok := bb.Instrs[len(bb.Instrs)-1].(*ssa.If); ok {
+				if v2, ns2, isNil2 := nilTestCond(i2.Cond); isNil2 && isLoadOfField(v2, a.fWaiter) && (v2 == v || (nfOpts{p: p, depth: 6}).nf(v) == (nfOpts{p: p, depth: 6}).nf(v2)) {
+					return i == ns2
+				}
+			}
+			return true
+		},
 			Avoid: func(i ssa.Instruction) bool { return isCount(i) || i == ssa.Instruction(iff) }, Target: func(i ssa.Instruction) bool { return i == sel || isReturn(i) }}
 		w := q.FindPath()
 		if w != nil {
@@ -1690,4 +1742,14 @@ func inlineSelection(p *Prog, cf *ssa.Function, set ssa.Value) (appends []*ssa.C
 		}
 	}
 	return
+}
+
+// isLoopHeader: some predecessor of b is dominated by b (a back edge enters b).
+func isLoopHeader(b *ssa.BasicBlock) bool {
+	for _, pr := range b.Preds {
+		if b.Dominates(pr) {
+			return true
+		}
+	}
+	return false
 }
